@@ -2,10 +2,10 @@ CONSTANTS
   CYears = {2018,2019}
   CMonths = {1,2}
   CDays = {1,2}
-  CHours = {0,1}
-  CQuanta = {"YMD","YMDH"}
+  CHours = {1}
+  CQuanta = {"Y","YM","YMD","YMDH","M","MD","MDH","D","DH","H"}
   NSV = {FALSE}
-  Variant = "orig"
+  Variant = "fixed"
   Order = "code"
   MaxT = 2
   MaxS = 1
@@ -15,5 +15,7 @@ CONSTANTS
 INIT Init
 NEXT Next
 INVARIANT ClearedEverywhere
+INVARIANT StdTruth
+INVARIANT BndsAligned
 VIEW MView
 CHECK_DEADLOCK FALSE
